@@ -95,13 +95,18 @@ def dispatch(func, args, kwargs):
     # ghost: does the result carry an autograd graph (depends, through differentiable ops, on a tensor that requires grad)?
     if name not in NO_GRAPH and torch.is_grad_enabled():
         g = False
+        gs = None
         for a_ in pytree.tree_leaves((args, kwargs)):
             if isinstance(a_, Sym) and a_._g and (a_._g.get("requires_grad") or a_._g.get("graph")):
-                g = True; break
+                g = True
+                # gradset: the leaves reachable from the result through differentiable ops
+                own = a_._g.get("gradset") or (frozenset([a_._g.get("leaf", id(a_))]) if a_._g.get("requires_grad") else frozenset())
+                gs = own if gs is None else (gs | own)
         if g:
             for r_ in pytree.tree_leaves(res):
                 if isinstance(r_, Sym) and r_.dtype.is_floating_point and not (r_._g or {}).get("requires_grad"):
                     r_._g = dict(r_._g or {}); r_._g["graph"] = True
+                    r_._g["gradset"] = (r_._g.get("gradset") or frozenset()) | (gs or frozenset())
     return res
 
 
